@@ -5,7 +5,7 @@ import time
 
 from . import common as C
 from . import oracles as O
-from . import stage_cli, stage_gen
+from . import stage_cli, stage_gen, stage_mock
 
 IMPORTS_ALL = ("From Moq Require Import Strs GoTypes TypeString VarName Registry Scope Gen TmplAst TmplExec "
                "MockSem MockSpec MockSeq_Proofs WellScoped.\n")
@@ -126,6 +126,23 @@ PROPS = {
 OK_VERDICTS = {"ok", "ok-proj", "ok-err", "ok-diverges", "ok-crash", "skip-order"}
 
 
+def first_difference(model, observed):
+    """the kind of the first trace event on which two traces differ"""
+    if observed.startswith("ERROR"):
+        return "ERROR"
+    a, b = model.replace("#", ";").split(";"), observed.replace("#", ";").split(";")
+    for x, y in zip(a, b):
+        if x != y:
+            t = (y or x).split(" ")
+            k = t[0]
+            if k == "P":
+                return "Pn" if len(t) > 2 and t[2] == "nil" else "Pu"
+            if k == "R":
+                return "Rz" if len(t) > 2 and t[2].startswith("zero") else "R"
+            return k
+    return "S" if len(a) != len(b) else "?"
+
+
 def coq_obligations(ctx, spec):
     """every theorem of the property must have been compiled by the kernel in a full .vo
     build and be closed under the global context (or depend only on named stdlib axioms)"""
@@ -223,6 +240,44 @@ def run(ctx):
                 continue
             failures.append(dict(case=cr, fails=[("lifted mock program is rejected by the Coq checker (%s, need %s)"
                                                   % (canon, need), "checker")], families=sorted(fams)))
+        # runtime: real compiled mocks under histories / race detector, against MockSem
+        rt = stage_mock.run(ctx.tools, ctx.seed, ctx.tier)
+        if rt["errors"]:
+            corr_breaks.append(dict(what="Coq evaluation of the histories failed", detail=rt["errors"][0][-400:]))
+        relevant = {"C03": ("I", "R", "Pu"), "C04": ("S",), "C05": (), "C06": ("ERROR",), "C07": ("Pn", "Rz"),
+                    "C08": ("X", "S")}[ctx.pid]
+        agree = stuck = 0
+        for h in rt["histories"]:
+            if h["model"] == h["observed"]:
+                agree += 1
+                continue
+            if h["model"] in (None, "STUCK", "NOMOCK") or h["observed"] is None:
+                stuck += 1
+                continue
+            kind = first_difference(h["model"], h["observed"])
+            if kind in relevant:
+                failures.append(dict(case=dict(case=dict(id=h["id"], args=[h["mock"]], pkg="", stub=False, skip=False,
+                                                         resets=False, history=h["ops"]),
+                                               text=None, facts={}, src={}, model_trace=h["model"],
+                                               observed_trace=h["observed"]),
+                                     fails=[("real mock and MockSem disagree on a history at a %s event: model %s ... "
+                                             "observed %s" % (kind, h["model"][:160], h["observed"][:160]),
+                                             "history")], families=[]))
+        for pk in rt["packages"]:
+            if ctx.pid == "C05" and (pk["races"] or pk["lost"]):
+                failures.append(dict(case=dict(case=dict(id=pk["name"], args=list(pk["job"][1]), pkg="", stub=pk["job"][2],
+                                                         skip=False, resets=pk["job"][3]), text=None, facts={}, src={}),
+                                     fails=[("race detector / record accounting on the real mock under concurrent use: "
+                                             "%d races, lost=%s" % (pk["races"], pk["lost"]), pk["tail"][-600:])],
+                                     families=[]))
+            if ctx.pid in ("C05", "C06") and pk["deadlock"]:
+                failures.append(dict(case=dict(case=dict(id=pk["name"], args=list(pk["job"][1]), pkg="", stub=pk["job"][2],
+                                                         skip=False, resets=pk["job"][3]), text=None, facts={}, src={}),
+                                     fails=[("concurrent use of the real mock deadlocked", pk["tail"][-600:])], families=[]))
+        notes.append("runtime: %d histories on real compiled mocks (-race), %d agree with MockSem, %d not runnable "
+                     "in the model; %d package copies under the concurrent hammer" %
+                     (len(rt["histories"]), agree, stuck, len(rt["packages"])))
+        evaluated += len(rt["histories"])
 
     return finish(ctx, spec, obligations, corr_breaks, failures, known_hits, listed, notes, st, evaluated,
                   len(nontrivial))
